@@ -131,10 +131,16 @@ func (r *Report) Finish() int {
 	for _, k := range seenKnown {
 		fmt.Printf("KNOWN-FINDING: property=%s %s [%s]\n", k.Property, k.WhatFails, k.Signature)
 	}
-	os.MkdirAll(filepath.Join(r.Root, "replays"), 0o755)
+	// a run against anything but /repo itself (a scratch worktree with a seeded change) must not
+	// overwrite the evidence and replays of the real tree
+	outRoot := r.Root
+	if vr := os.Getenv("VERIF_REPO"); vr != "" && vr != "/repo" {
+		outRoot = filepath.Join(r.Root, ".build", "scratch-run")
+	}
+	os.MkdirAll(filepath.Join(outRoot, "replays"), 0o755)
 	for _, v := range fresh {
 		h := sha256.Sum256([]byte(v.Sig))
-		p := filepath.Join(r.Root, "replays", fmt.Sprintf("%s-%s.json", v.Property, hex.EncodeToString(h[:6])))
+		p := filepath.Join(outRoot, "replays", fmt.Sprintf("%s-%s.json", v.Property, hex.EncodeToString(h[:6])))
 		b, _ := json.MarshalIndent(v, "", " ")
 		os.WriteFile(p, b, 0o644)
 		fmt.Printf("VIOLATION property=%s replay=%s\n", v.Property, p)
@@ -185,8 +191,8 @@ func (r *Report) Finish() int {
 		ev["assumptions"] = []string{}
 	}
 	b, _ := json.MarshalIndent(ev, "", " ")
-	os.MkdirAll(filepath.Join(r.Root, "evidence"), 0o755)
-	os.WriteFile(filepath.Join(r.Root, "evidence", r.Property+".json"), b, 0o644)
+	os.MkdirAll(filepath.Join(outRoot, "evidence"), 0o755)
+	os.WriteFile(filepath.Join(outRoot, "evidence", r.Property+".json"), b, 0o644)
 	fmt.Printf("%s %s: states=%v transitions=%v executions=%v distinct=%d exhaustive=%v violations=%d known=%d wall=%.1fs\n",
 		r.Property, r.Tier, cov["states"], cov["transitions"], cov["traces_validated_against_impl"], len(r.nontrivial), r.Exhaustive, len(fresh), len(seenKnown), time.Since(r.start).Seconds())
 	if len(fresh) > 0 {
